@@ -122,6 +122,14 @@ def run(ctx):
         body = bytes([0x3F | (rng.below(4) << 6)]) + bytes(rng.choice([0xFF, 0xFF, 0xFE, 0x7F, rng.below(256)]) for _ in range(rng.below(60)))
         av1_inputs.append(hdr + body + rng.bytes(rng.below(40)))
         av1_inputs.append(hdr[1:] + rng.bytes(30 + rng.below(40)))
+    # every short length, with and without the 0xB5 country code, of a valid OBU and of the bare header (the minimum
+    # length test and the prefix strip interact at 9/10 and 34/35 bytes)
+    short_src = [x for x in av1_inputs[:3] if len(x) >= 45][:1] or [hdr + bytes(40)]
+    for base in short_src + [hdr + bytes(40)]:
+        core = base[1:] if base[:1] == b"\xb5" else base
+        for cut in range(0, 45):
+            av1_inputs.append(core[:cut])
+            av1_inputs.append(b"\xb5" + core[:cut])
     for b in av1_inputs:
         lines.append("c08.av1 " + hx(b)); kinds.append("av1")
         if rng.chance(1, 4):
